@@ -7,7 +7,8 @@
    by tools/props/c17.py only). *)
 From RS Require Import Lib.Tac Lib.Outcome Core.Prog Human.Namer Human.Render Human.Resolve
   Human.RenderProofs Human.ResolveProofs Human.ConvProofs Human.FinProofs Human.RoundTrip Human.Run
-  Ty.Ty Human.TypeText Human.TypeTextProofs Human.TypeRun.
+  Ty.Ty Human.TypeText Human.TypeTextProofs Human.TypeRun Human.PathCount Human.PathSat Human.FromProgram Human.PathRun
+  Human.LineText Human.LineTextProofs Human.LineRun Human.PathOverflow Human.TokenRoundTrip.
 Import ListNotations.
 Local Open Scope N_scope.
 
@@ -239,3 +240,239 @@ Print Assumptions C17_show_a_reify.
 (* the hypotheses are satisfiable *)
 Example C17_ex_small : small (Sum (Prod (Sum One Bit) (word_ty 1)) One) /\ follow_ok [TSym 7; TOther 0].
 Proof. split; [apply small_of_size; cbn; lia|exact I]. Qed.
+
+
+(* ================================================================== phase 3: from_program and the path count
+   Models: Human/PathCount.v (the last loop of parse_inner as written: one HashMap per yielded node of
+   post_order_iter::<InternalSharing>, usize counts), Human/FromProgram.v (invariant of the MaxSharing
+   conversion of Namer). *)
+
+(* 19. C17_from_program_statement proved, with the hypothesis on the identity hashes that the code
+   guarantees (CommitData::imr: a node has an identity hash iff it is neither witness nor disconnect and
+   all its operands have one) and that operands of nodes are nodes, both as the executable test from_ok
+   (evaluated on every generated program by the check, kind fromok): the named DAG of
+   Forest::from_program is a well-formed table, distinct node objects carry distinct names, every
+   witness / disconnect name is on one path only *)
+Theorem C17_from_program : forall p ihr cmr,
+  wf_prog p = true ->
+  (forall j, (j < pred (length p))%nat -> nth j cmr 0 <> nth (pred (length p)) cmr 0) ->
+  from_ok p ihr = true ->
+  let d := name_program p ihr cmr in
+  wf_ndag d = true /\ NoDup (map (nname d) (post_order d)) /\ path_errs d = [].
+Proof. exact from_program_ok. Qed.
+Print Assumptions C17_from_program.
+
+(* 20. hence (theorem 3): the rendering of a committed program parses back to the same named DAG *)
+Theorem C17_from_program_roundtrip : forall p ihr cmr cmr_of,
+  wf_prog p = true ->
+  (forall j, (j < pred (length p))%nat -> nth j cmr 0 <> nth (pred (length p)) cmr 0) ->
+  from_ok p ihr = true ->
+  let d := name_program p ihr cmr in
+  exists d', resolve_lines cmr_of (render d) = Ok [(nname d (root_of d), d')] /\ iso d d' /\ wf_ndag d' = true.
+Proof. exact from_program_roundtrip. Qed.
+Print Assumptions C17_from_program_roundtrip.
+
+(* 21. the statement as first written (identity hashes arbitrary class numbers) does not hold of the
+   model: an identity hash on the injl above a witness.  Not a finding - CommitData::imr never produces
+   such a table (from_ok = false); it shows that the hypothesis of 19 is needed *)
+Theorem C17_from_program_statement_refuted_weak_hyp : ~ C17_from_program_statement.
+Proof.
+  intros H. destruct from_program_needs_ihr_closed as [W [C [I [_ P]]]].
+  apply P. exact (proj2 (proj2 (H unreal_p unreal_ihr unreal_cmr W C I))).
+Qed.
+Print Assumptions C17_from_program_statement_refuted_weak_hyp.
+
+(* 22. the path-count loop as written and the tidier path_counts of Human/Resolve.v compute the same
+   function: for every name, the number of pairs (path from the root, witness / disconnect node of that
+   name at its end) *)
+Theorem C17_path_counts_agree : forall d n, wf_ndag d = true ->
+  cnt_get (last (pc_all d) []) n = name_paths d (root_of d) n /\
+  cnt_get (path_counts d) n = name_paths d (root_of d) n.
+Proof. exact pc_agree_thm. Qed.
+Print Assumptions C17_path_counts_agree.
+
+(* 23. what is reported (unbounded counts): exactly the names reached by more than one path, each
+   once, with the number of paths *)
+Theorem C17_wd_errors_spec : forall d n c, wf_ndag d = true ->
+  (In (n, c) (wd_errors d) <-> c = name_paths d (root_of d) n /\ 1 < c).
+Proof. exact wd_errors_spec_thm. Qed.
+Print Assumptions C17_wd_errors_spec.
+
+Theorem C17_wd_errors_names : forall d, wf_ndag d = true -> NoDup (map fst (wd_errors d)).
+Proof. exact wd_errors_names. Qed.
+Print Assumptions C17_wd_errors_names.
+
+(* 24. no error <-> the tidy version reports none <-> every name is reached by at most one path *)
+Theorem C17_no_error_iff : forall d, wf_ndag d = true ->
+  (wd_errors d = [] <-> path_errs d = []) /\
+  (wd_errors d = [] <-> forall n, name_paths d (root_of d) n <= 1).
+Proof. exact no_error_iff. Qed.
+Print Assumptions C17_no_error_iff.
+
+(* 25. [about the code BEFORE commit c273481, plain `+=` on usize; kept as the record of F-C17m; the code as it
+   is: theorems 35-37] with overflow checks the loop either panics (an addition left usize) or reports the
+   unbounded result; it never fails otherwise *)
+Theorem C17_wd_check_old_ok : forall d, wf_ndag d = true ->
+  existsb over (pc_all d) = false -> wd_check_old d = Ok (wd_errors d).
+Proof. exact wd_check_old_ok. Qed.
+Print Assumptions C17_wd_check_old_ok.
+
+Theorem C17_wd_check_old_total : forall d, wf_ndag d = true ->
+  match wd_check_old d with Ok _ => True | Panic c => c = 1 | _ => False end.
+Proof. exact wd_check_old_total. Qed.
+Print Assumptions C17_wd_check_old_total.
+
+(* 26. F-C17m (fixed, c273481) - the code BEFORE the fix: `w := witness  x0 := comp w unit  x_{k+1} := comp (pair x_k x_k) unit`,
+   main := x64: the witness is reached by 2^64 paths; the addition 2^63 + 2^63 leaves usize: with
+   overflow checks Forest::parse panics, without them the count wraps to 0 and the text is accepted
+   (nothing is reported); with 63 levels the error is reported with count 2^63 *)
+Theorem C17_path_count_overflow_old_refuted :
+  wf_ndag (ovf_dag 64) = true /\ wd_check_old (ovf_dag 64) = Panic 1 /\
+  wd_errors (ovf_dag 64) = [(NUser 0, 2 ^ 64)] /\
+  wd_of (wrap (last (pc_all (ovf_dag 64)) [])) = [].
+Proof. exact ovf_64. Qed.
+Print Assumptions C17_path_count_overflow_old_refuted.
+
+Theorem C17_path_count_old_63 : wf_ndag (ovf_dag 63) = true /\ wd_check_old (ovf_dag 63) = Ok [(NUser 0, 2 ^ 63)].
+Proof. exact ovf_63. Qed.
+Print Assumptions C17_path_count_old_63.
+
+(* the hypotheses of 19 are satisfiable: `comp (pair witness witness) unit` with the witness object shared *)
+Example C17_ex_from_ok :
+  let p := [NWitness WNone; NPair 0 0; NUnit; NComp 1 2] in
+  wf_prog p = true /\ from_ok p [None; None; Some 1; None] = true /\
+  map nn_name (name_program p [None; None; Some 1; None] [1; 2; 3; 4]) =
+    [NGen PWit 1; NGen PWit 2; NGen PPr 1; NGen PUt 2; NMain].
+Proof. repeat split; vm_compute; reflexivity. Qed.
+
+
+(* ================================================================== definition lines, token level
+   Models: Human/LineText.v (string_serialize pass 1 as a token list `name := expr operands : A -> B`;
+   parse_line_vector / parse_line / parse_expr with Parser::depth / parse_cmr / parse_literal /
+   parse_arrow / parse_symbol_value over the lexer's token classes; the arrow through the type parser
+   of Human/TypeText.v). *)
+
+(* 27. the expression of every rendered definition is read back as the expression that the
+   definition-level model (Human/Resolve.v expr_of_defline) assumed, consuming exactly its tokens *)
+Theorem C17_pexpr_line : forall l f rest, line_ok l = true ->
+  pexpr (S (S f)) 0 (expr_tokens l ++ rest) = Ok (expr_of_defline l, rest).
+Proof. exact pexpr_line. Qed.
+Print Assumptions C17_pexpr_line.
+
+(* 28. a whole line with its arrow (types nested less than 1000 deep), whatever follows except ? + * *)
+Theorem C17_pline_print : forall l src tgt rest,
+  line_ok l = true -> small src -> small tgt -> lfollow_ok rest ->
+  pline (line_tokens l src tgt ++ rest) = Ok (parsed_line l src tgt, rest).
+Proof. exact pline_print. Qed.
+Print Assumptions C17_pline_print.
+
+(* 29. parse_line_vector on the token rendering of any list of definitions gives those definitions back,
+   and their line parts are the input of Resolve.resolve_lines (theorems 3, 20) *)
+Theorem C17_plines_text : forall xs, Forall tline_ok xs ->
+  plines (text_tokens xs) = Ok (map (fun x => parsed_line (fst x) (fst (snd x)) (snd (snd x))) xs).
+Proof. exact plines_text. Qed.
+Print Assumptions C17_plines_text.
+
+Theorem C17_plines_text_lines : forall xs, Forall tline_ok xs ->
+  match plines (text_tokens xs) with
+  | Ok ps => map pl_line ps = parse_lines (map fst xs)
+  | _ => False
+  end.
+Proof. exact plines_text_lines. Qed.
+Print Assumptions C17_plines_text_lines.
+
+(* 30. the line parser terminates on every token vector with lines or an error (no panic, fuel
+   suffices), and a line consumes at least one token *)
+Theorem C17_pline_total : forall ts, shorter ts (pline ts).
+Proof. exact pline_total. Qed.
+Print Assumptions C17_pline_total.
+
+Theorem C17_plines_total : forall ts, match plines ts with Ok _ | Err _ => True | _ => False end.
+Proof. exact plines_total. Qed.
+Print Assumptions C17_plines_total.
+
+(* 31. the compressed rendering used by the correspondence check computes the model *)
+Theorem C17_line_tokens_a_eq : forall l a b, pow_ok a = true -> pow_ok b = true ->
+  line_tokens_a l a b = line_tokens l (reify a) (reify b).
+Proof. exact line_tokens_a_eq. Qed.
+Print Assumptions C17_line_tokens_a_eq.
+
+Example C17_ex_line_ok :
+  line_ok (mk_dl NMain KComp [] (Some (NGen PPr 1)) (Some (NGen PUt 2)) None) = true /\
+  line_ok (mk_dl (NGen PConst 1) KWord [3; 255] None None None) = true /\
+  line_ok (mk_dl (NGen PDisc 4) KDisconnect [] (Some (NGen PId 1)) None (Some (NHole 3))) = true.
+Proof. exact ex_line_ok. Qed.
+
+
+(* 32. [code BEFORE c273481] when the plain path count leaves usize (panic with overflow checks): exactly when some witness /
+   disconnect name is reached from the root by more than usize::MAX paths *)
+Theorem C17_wd_check_old_panic_iff : forall d, wf_ndag d = true ->
+  (wd_check_old d = Panic 1 <-> exists n, usize_max < name_paths d (root_of d) n).
+Proof. exact wd_check_old_panic_iff. Qed.
+Print Assumptions C17_wd_check_old_panic_iff.
+
+(* 33. rendered lines of a well-formed table have the form that theorems 27-29 ask for, given the
+   payload sizes of the kinds (jet: one index, fail: 64 bytes, word: n <= 31 and bytes) *)
+Theorem C17_render_lines_ok : forall d, wf_ndag d = true ->
+  (forall i, (i < length d)%nat -> pay_ok (nget d i) = true) ->
+  Forall (fun l => line_ok l = true) (render d).
+Proof. exact render_lines_ok. Qed.
+Print Assumptions C17_render_lines_ok.
+
+(* 34. the round trip at the level of tokens, for a committed program: the token rendering of
+   Forest::from_program (every line with an arrow of types nested less than 1000 deep) is read by the
+   token-level line parser, and resolving the lines it returns gives the named DAG back up to renumbering *)
+Theorem C17_from_program_token_roundtrip : forall p ihr cmr cmr_of (arrows : list (ty * ty)),
+  wf_prog p = true ->
+  (forall j, (j < pred (length p))%nat -> nth j cmr 0 <> nth (pred (length p)) cmr 0) ->
+  from_ok p ihr = true ->
+  let d := name_program p ihr cmr in
+  (forall i, (i < length d)%nat -> pay_ok (nget d i) = true) ->
+  length arrows = length (render d) ->
+  Forall (fun a => small (fst a) /\ small (snd a)) arrows ->
+  exists ps d',
+    plines (text_tokens (combine (render d) arrows)) = Ok ps /\
+    resolve cmr_of (map pl_line ps) = Ok [(nname d (root_of d), d')] /\
+    iso d d' /\ wf_ndag d' = true.
+Proof. exact from_program_token_roundtrip'. Qed.
+Print Assumptions C17_from_program_token_roundtrip.
+
+
+(* ================================================================== the path count as it is (commit c273481)
+   Model: Human/PathSat.v - the loop of Human/PathCount.v with every addition `saturating_add` on usize. *)
+
+(* 35. the check never panics (no overflow; `counts.last().unwrap()` is safe): it returns the report of the
+   map of the root *)
+Theorem C17_wd_check_sat_ok : forall d, wf_ndag d = true -> wd_check_sat d = Ok (wd_sat d).
+Proof. exact wd_check_sat_ok. Qed.
+Print Assumptions C17_wd_check_sat_ok.
+
+(* 36. what is reported: exactly the names reached from the root by more than one path, each once, with the
+   count min (paths, usize::MAX) *)
+Theorem C17_wd_sat_spec : forall d n c, wf_ndag d = true ->
+  (In (n, c) (wd_sat d) <-> c = N.min (name_paths d (root_of d) n) usize_max /\ 1 < name_paths d (root_of d) n).
+Proof. exact wd_sat_spec_thm. Qed.
+Print Assumptions C17_wd_sat_spec.
+
+Theorem C17_wd_sat_names : forall d, wf_ndag d = true -> NoDup (map fst (wd_sat d)).
+Proof. exact wd_sat_names. Qed.
+Print Assumptions C17_wd_sat_names.
+
+(* 37. the same names as the unbounded report (theorem 23), and no error exactly when the definition-level
+   model reports none (path_errs, the hypothesis of theorems 3, 19, 20, 34) *)
+Theorem C17_wd_sat_same_names : forall d n, wf_ndag d = true ->
+  (In n (map fst (wd_sat d)) <-> In n (map fst (wd_errors d))).
+Proof. exact wd_sat_same_names_thm. Qed.
+Print Assumptions C17_wd_sat_same_names.
+
+Theorem C17_wd_sat_nil_iff : forall d, wf_ndag d = true -> (wd_sat d = [] <-> path_errs d = []).
+Proof. exact wd_sat_nil_iff. Qed.
+Print Assumptions C17_wd_sat_nil_iff.
+
+(* 38. the regression of F-C17m: 2^63 paths are reported as such, 2^64 and 2^65 paths with usize::MAX *)
+Theorem C17_path_count_saturates :
+  wd_check_sat (ovf_dag 63) = Ok [(NUser 0, 2 ^ 63)] /\
+  wd_check_sat (ovf_dag 64) = Ok [(NUser 0, 2 ^ 64 - 1)] /\
+  wd_check_sat (ovf_dag 65) = Ok [(NUser 0, 2 ^ 64 - 1)].
+Proof. exact ovf_sat. Qed.
+Print Assumptions C17_path_count_saturates.
